@@ -118,6 +118,66 @@ def cloneVariant : Vars → Nat → Nat → Nat → Mem → Mem
   | .cons _ (.cons v' vs), k + 1, src, dst, m => cloneVariant (.cons v' vs) k src dst m
 end
 
+/-! ## the generated drop function, executed -/
+
+/-- one runtime drop performed: (kind of the leaf, its address) -/
+abbrev DropEv := LeafKind × Nat
+
+mutual
+/-- `call_drop_of(addr, ty)` followed by running the callee
+    (`generate_drop_body_*`): the runtime drops performed, in order -/
+def dropTy (m : Mem) : Ty → Nat → List DropEv
+  | .unit, _ => []
+  | .never, _ => []
+  | .leaf k s al, a => if needsDrop (.leaf k s al) then [(k, a)] else []
+  | .record fs, a => if needsDrop (.record fs) then dropFields m fs LayoutBuilder.new a else []
+  | .enum vs, a => if needsDrop (.enum vs) then dropVariant m vs (m a) a else []
+/-- `generate_drop_body_record`'s loop (`add`, then `continue` unless
+    `needs_drop`) / the per-variant loop (which calls `call_drop_of` on every
+    field; that re-tests `needs_drop`) -/
+def dropFields (m : Mem) : Tys → LayoutBuilder → Nat → List DropEv
+  | .nil, _, _ => []
+  | .cons t ts, b, a =>
+    match layoutOf t with
+    | none => dropFields m ts b a
+    | some l =>
+      (if needsDrop t then dropTy m t (a + (b.add l).2) else []) ++ dropFields m ts (b.add l).1 a
+/-- the `Switch` of `generate_drop_body_enum`: the last variant is the default -/
+def dropVariant (m : Mem) : Vars → Nat → Nat → List DropEv
+  | .nil, _, _ => []
+  | .cons v .nil, _, a =>
+    match collectLayouts v with
+    | none => []
+    | some _ => dropFields m v variantStartDrop a
+  | .cons v (.cons _ _), 0, a =>
+    match collectLayouts v with
+    | none => []
+    | some _ => dropFields m v variantStartDrop a
+  | .cons _ (.cons v' vs), k + 1, a => dropVariant m (.cons v' vs) k a
+end
+
+mutual
+/-- the owned handles (String / List / registered `Clone` leaves) of the value
+    stored at `a`, with their addresses, in field order — placed as
+    `layout_of` places them, the variant selected by the tag -/
+def handles (m : Mem) : Ty → Nat → List DropEv
+  | .unit, _ => []
+  | .never, _ => []
+  | .leaf k _ _, a => if k == .string || k == .list || k == .rtClone then [(k, a)] else []
+  | .record fs, a => handlesFields m fs LayoutBuilder.new a
+  | .enum vs, a => handlesVariant m vs (m a) a
+def handlesFields (m : Mem) : Tys → LayoutBuilder → Nat → List DropEv
+  | .nil, _, _ => []
+  | .cons t ts, b, a =>
+    match layoutOf t with
+    | none => []
+    | some l => handles m t (a + (b.add l).2) ++ handlesFields m ts (b.add l).1 a
+def handlesVariant (m : Mem) : Vars → Nat → Nat → List DropEv
+  | .nil, _, _ => []
+  | .cons v _, 0, a => handlesFields m v variantStart a
+  | .cons _ vs, k + 1, a => handlesVariant m vs k a
+end
+
 /-! ## the generated eq function, executed -/
 
 mutual
